@@ -8,7 +8,8 @@
   * "nothing is forwarded back onto the network it came from" → `no_echo`
   * "or once the count is exhausted"                          → `hop_exhausted`
   * "a local broadcast stays on its network"                  → `local_stays_local`
-                                                                (+ `station_never_forwards`)
+                                                                (+ `station_never_forwards`),
+                                                                end to end `tree_local_broadcast_once`
   * SADR bookkeeping that makes replies possible              → `sadr_rule`
   * who hands the packet to its application                   → `local_delivery_iff`
   * "The source address shown to a recipient names the originator's network and station"
